@@ -79,6 +79,16 @@ func c02control() []gen.Ctx {
 		tmpl("callzz", 1, `(zz $1)`),
 		tmpl("calla", 1, `(a $1)`),
 		tmpl("defnlocal", 2, `(begin (defn k [x] $1) (k $2))`),
+		tmpl("rec-set-rhs", 1, `(begin (def c 0) (defn k [x] (cond (== x 0) $1 (set c (k (- x 1))))) (list (k 2) c))`),
+		tmpl("rec-def-rhs", 1, `(begin (defn k [x] (cond (== x 0) $1 (def q (k (- x 1))))) (k 2))`),
+		tmpl("rec-let-binding", 1, `(begin (defn k [x] (cond (== x 0) $1 (let [q (k (- x 1))] (+ q 1)))) (k 2))`),
+		tmpl("rec-letseq-binding", 1, `(begin (defn k [x] (cond (== x 0) $1 (letseq [q (k (- x 1)) r q] (+ r 1)))) (k 2))`),
+		tmpl("rec-and-first", 1, `(begin (defn k [x] (cond (== x 0) $1 (and (k (- x 1)) 5))) (k 2))`),
+		tmpl("rec-cond-test", 1, `(begin (defn k [x] (cond (== x 0) $1 (cond (k (- x 1)) 8 9))) (k 2))`),
+		tmpl("rec-array-elem", 1, `(begin (defn k [x] (cond (== x 0) $1 [(k (- x 1))])) (k 2))`),
+		tmpl("rec-tail-in-let", 1, `(begin (defn k [x] (cond (== x 0) $1 (let [q x] (k (- q 1))))) (k 2))`),
+		tmpl("rec-assert-form", 1, `(begin (def c 0) (defn k [x] (cond (== x 0) $1 (begin (set c (+ c 1)) (assert (k (- x 1)))))) (list (k 2) c))`),
+		tmpl("rec-assert", 1, `(begin (def c 0) (defn k [x] (cond (== x 0) $1 (begin (set c (+ c 1)) (== 1 (k (- x 1)))))) (list (k 2) c))`),
 		tmpl("map", 3, `(map (fn [x] $1) [$2 $3])`),
 		tmpl("maplist", 2, `(map (fn [x] $1) (list $2 7))`),
 		tmpl("apply", 2, `(apply f [$1 $2])`),
